@@ -206,8 +206,8 @@ M('C16', 'segment-guard-removed', GEO, "    if l == 0:\n        return math.sqrt
 T('C16', 'twin-dp-loop', SIM, "        if d > dmax:\n            dmax = d\n            imax = i", "        if dmax < d:\n            imax = i\n            dmax = d")
 
 # ---------------------------------------------------------------- C17
-M('C17', 'ds-3d', ANA, "    return track.getObs(i).distance2DTo(track.getObs(i - 1))", "    return track.getObs(i).distanceTo(track.getObs(i - 1))", 'C17.D')
-M('C17', 'speed-mixed-pair', ANA, "    ds = track.getObs(i + 1).position.distance2DTo(track.getObs(i - 1).position)\n    dt = track.getObs(i + 1).timestamp - track.getObs(i - 1).timestamp", "    ds = track.getObs(i + 1).position.distance2DTo(track.getObs(i).position)\n    dt = track.getObs(i + 1).timestamp - track.getObs(i - 1).timestamp", 'C17.S')
+M('C17', 'ds-3d', ANA, "    return track.getObs(i).distance2DTo(track.getObs(i - 1))", "    return track.getObs(i).distanceTo(track.getObs(i - 1))", 'C17.G')
+M('C17', 'speed-mixed-pair', ANA, "    ds = track.getObs(i + 1).position.distance2DTo(track.getObs(i - 1).position)\n    dt = track.getObs(i + 1).timestamp - track.getObs(i - 1).timestamp", "    ds = track.getObs(i + 1).position.distance2DTo(track.getObs(i).position)\n    dt = track.getObs(i + 1).timestamp - track.getObs(i - 1).timestamp", 'C17.G')
 M('C17', 'abscurv-keeps-ds', CIN, "    track.removeAnalyticalFeature(BIAF_DS)\n\n    return track.getAnalyticalFeature(BIAF_ABS_CURV)", "    return track.getAnalyticalFeature(BIAF_ABS_CURV)", 'C17.W')
 M('C17', 'speed-moves-time', ANA, "    if dt == 0:\n        return NAN\n    else:\n        return ds / dt", "    if dt == 0:\n        track.getObs(i).timestamp = track.getObs(i).timestamp.addSec(1)\n        return NAN\n    else:\n        return ds / dt", 'C17.F')
 T('C17', 'twin-speed-rename', ANA, "    ds = track.getObs(i + 1).position.distance2DTo(track.getObs(i - 1).position)\n    dt = track.getObs(i + 1).timestamp - track.getObs(i - 1).timestamp", "    nxt = track.getObs(i + 1)\n    prv = track.getObs(i - 1)\n    ds = nxt.position.distance2DTo(prv.position)\n    dt = nxt.timestamp - prv.timestamp")
